@@ -17,6 +17,7 @@ limitations under the License.
 #include "libcellml/component.h"
 
 #include <algorithm>
+#include <map>
 #include <iterator>
 #include <numeric>
 #include <string>
@@ -418,6 +419,19 @@ bool Component::hasReset(const ResetPtr &reset) const
     return pFunc()->findReset(reset) != pFunc()->mResets.end();
 }
 
+void shareImportSourceCopies(const ComponentConstPtr &original, const ComponentPtr &copy, std::map<ImportSourcePtr, ImportSourcePtr> &copies)
+{
+    if (original->isImport()) {
+        auto result = copies.emplace(original->importSource(), copy->importSource());
+        if (!result.second) {
+            copy->setImportSource(result.first->second);
+        }
+    }
+    for (size_t index = 0; index < original->componentCount(); ++index) {
+        shareImportSourceCopies(original->component(index), copy->component(index), copies);
+    }
+}
+
 ComponentPtr Component::clone() const
 {
     auto c = create();
@@ -458,6 +472,10 @@ ComponentPtr Component::clone() const
         auto cChild = component(index);
         c->addComponent(cChild->clone());
     }
+
+    // Components that share an import source in the original share one in the copy.
+    std::map<ImportSourcePtr, ImportSourcePtr> importSourceCopies;
+    shareImportSourceCopies(shared_from_this(), c, importSourceCopies);
 
     return c;
 }
